@@ -104,6 +104,7 @@ type Exec struct {
 	smMemo     map[string][]*smEntry
 	puDone     map[*Term]bool
 	regionSeq  int
+	pureApps   map[string][]pureAppRec
 	catDirty   bool // some instruction stored into byte memory in place
 	catGoal    bool // evaluating an ensures goal in positive position
 }
@@ -702,6 +703,9 @@ func (x *Exec) loopMods(l *Loop, st *State) modSet {
 				}
 			case ssa.CallInstruction:
 				c := t.Common()
+				if !x.callMayWriteHeap(c) {
+					continue
+				}
 				m.heap = true
 				touchesGhost := true
 				if sc := c.StaticCallee(); sc != nil {
@@ -750,4 +754,29 @@ func (x *Exec) contractFile() string {
 		return relPath(x.w.RepoDir, x.fc.File)
 	}
 	return "?"
+}
+
+// callMayWriteHeap: false for calls that certainly leave byte memory alone (module functions whose contract
+// assigns nothing, read-only external functions).
+func (x *Exec) callMayWriteHeap(c *ssa.CallCommon) bool {
+	if b, ok := c.Value.(*ssa.Builtin); ok {
+		return b.Name() == "append" || b.Name() == "copy"
+	}
+	sc := c.StaticCallee()
+	if sc == nil {
+		return true
+	}
+	if pp := fnPkg(sc); pp != nil {
+		if pk, ok := x.w.ByPath[pp.Pkg.Path()]; ok {
+			fc := pk.Contracts.Funcs[ContractKey(sc)]
+			return fc == nil || fc.Inline || len(fc.Assigns) > 0
+		}
+	}
+	name := sc.String()
+	for _, p := range []string{"strings.", "(*regexp.Regexp).", "strconv.Parse", "strconv.Atoi", "math/bits.", "unicode/utf8.", "fmt.Errorf"} {
+		if strings.HasPrefix(name, p) {
+			return false
+		}
+	}
+	return true
 }
